@@ -36,7 +36,7 @@ theorem extract_sync (p p' : Port) (remote : PortId) (id send recv : Nat) (delay
       | none => simp [h2] at h
       | some raw =>
         simp only [h2] at h
-        refine ⟨raw, by simp [h2], ?_⟩
+        refine ⟨raw, by rw [Option.bind_some, h2], ?_⟩
         cases hmd : p.meanDelay with
         | none =>
           simp only [hmd, pure, Except.pure, Except.ok.injEq, Prod.mk.injEq] at h
@@ -64,7 +64,7 @@ theorem extract_delay (p p' : Port) (remote : PortId) (sync : SyncSt) (id send r
     ∃ raw, Spec.rawDelay send recv p.cfg.delayAsymmetry = some raw ∧
       o = [] ∧ p' = { p with st := .slave remote sync .empty last } ∧
       ∃ dl, m = some { eventTime := send, rawDelay := some raw, delay := dl } ∧
-        (match last with | some rs => Spec.meanDelay rs raw = dl | none => dl = none) := by
+        (∀ rs, last = some rs → Spec.meanDelay rs raw = dl) ∧ (last = none → dl = none) := by
   unfold Port.extract at h
   split at h
   · rename_i id' r a b c d hpeer
@@ -83,12 +83,12 @@ theorem extract_delay (p p' : Port) (remote : PortId) (sync : SyncSt) (id send r
         | none => simp [h2] at h
         | some raw =>
           simp only [h2] at h
-          refine ⟨raw, by simp [h2], ?_⟩
+          refine ⟨raw, by rw [Option.bind_some, h2], ?_⟩
           cases last with
           | none =>
             simp only [pure, Except.pure, Except.ok.injEq, Prod.mk.injEq] at h
             obtain ⟨e1, e2, e3⟩ := h
-            exact ⟨e3.symm, e1.symm, none, e2.symm, rfl⟩
+            exact ⟨e3.symm, e1.symm, none, e2.symm, (by intro rs hrs; cases hrs), fun _ => rfl⟩
           | some rs =>
             simp only at h
             unfold Spec.meanDelay
@@ -101,7 +101,7 @@ theorem extract_delay (p p' : Port) (remote : PortId) (sync : SyncSt) (id send r
               | some hv =>
                 simp only [h4, pure, Except.pure, Except.ok.injEq, Prod.mk.injEq] at h
                 obtain ⟨e1, e2, e3⟩ := h
-                exact ⟨e3.symm, e1.symm, some hv, e2.symm, by simp [h3, h4]⟩
+                exact ⟨e3.symm, e1.symm, some hv, e2.symm, (by intro rs' hrs; cases hrs; rw [h3, Option.bind_some, h4]), (by intro hn; cases hn)⟩
 
 def DelaySt.incomplete : DelaySt → Prop
   | .measuring _ (some _) (some _) => False
